@@ -234,18 +234,17 @@ def scan_queries(kind='db', config='base', tier_all=None):
                                   ('from_rev', 'scan_from(k, rev) with symbolic halt', 3), ('range', 'scan_range(a, b) with symbolic halt', 4)):
             if kind == 'mutex' and mode.startswith('seek'):
                 continue
-            if name in ('i48', 'i256'):
-                continue      # symbolic bounds on the large classes: node-level lemmas (C02 L2) only
-            if name in ('3lvl', 'fall', '2lvl', 'i16_5') and heavy >= 2:
-                continue      # measured out of reach (SAT instance > 40 GB)
-            if name == 'fall' and heavy >= 1:
+            # measured feasibility (thorough run): seek 10-15 min on i4_3/i16_5/fall2/sparse; scan_from 20 min on i4_3; scan_range 13 min on the root leaf;
+            # 2lvl/3lvl/fall seeks and scan_range on i4_3 exceed 40 GB or 57 min and are not part of any tier
+            ok = {'seek_fwd': {'leaf', 'i4_3', 'i16_5', 'fall2', 'sparse'}, 'seek_rev': {'leaf', 'i4_3', 'i16_5', 'fall2', 'sparse'},
+                  'seek_fwd_step': {'leaf', 'i4_3', 'fall2'}, 'seek_rev_step': {'leaf', 'i4_3', 'fall2'},
+                  'from_fwd': {'leaf', 'i4_3'}, 'from_rev': {'leaf', 'i4_3'}, 'range': {'leaf'}}
+            if name not in ok[mode]:
                 continue
-            tier = 'quick' if (name == 'leaf' and heavy <= 3) else 'thorough'
-            if heavy >= 3 and name not in ('leaf', 'i4_3'):
-                continue
+            tier = 'quick' if (name == 'leaf' and mode != 'range') else 'thorough'
             qs.append(Query('%s_%s%s' % (mode, name, sfx), u, '%s_%s' % (mode, name), unwind=10, flags=['--slice-formula'], loop_bounds=scan_lb(d, SCAN_N[name]), tier=T(tier),
                             about='%s over concrete tree "%s" with fully symbolic 64-bit bound(s)' % (what, name), bounds={'tree': name, 'symbolic': 'bound(s) 64-bit'},
-                            timeout=3400, mem_gb=40, weight=1 if tier == 'quick' else 4))
+                            timeout=3400, mem_gb=40, weight=1 if tier == 'quick' else 3))
     return qs
 
 
